@@ -34,6 +34,12 @@ def setup_worker(tier):
 
 def gen_case(rng, i, tier):
     p = G.gen(rng, stratified=True)
+    if i % 3 == 0:
+        # textually identical probabilistic ground lines: independent noisy-or causes that an exporter must keep apart
+        L = G.L
+        pr = rng.choice(G.PAL)
+        p["clauses"] += [["rule", pr, L("dd", ["X"]), [L("dom", ["X"]), L("dom", ["Y"])]], ["fact", pr, L("ee")], ["fact", pr, L("ee")]]
+        p["queries"] += [L("dd", [rng.choice(["_", 1])]), L("ee")]
     return dict(prog=p, route=["api_lf", "api_dag", "cli_pl", "cli_pl_bc", "cli_cnf"][i % 5])
 
 
